@@ -1039,6 +1039,14 @@ def r07e(R):
                 rets = [x for x in walk_own(g.node) if isinstance(x, ast.Return)]
                 if len(rets) == 1 and rets[0].value is not None:
                     bodies.append((g.params[0], rets[0].value))
+    # ... or written out for each component (a helper expanded in place)
+    for n in walk_own(f.node):
+        if isinstance(n, ast.Return) and isinstance(n.value, (ast.List, ast.Tuple)):
+            for e in n.value.elts[:3]:
+                names = [x.id for x in ast.walk(e) if isinstance(x, ast.Name)
+                         and x.id not in ('round', 'max', 'min')]
+                if isinstance(e, ast.Call) and len(set(names)) == 1:
+                    bodies.append((names[0], e))
     ok = False
     found = None
     for p, body in bodies:
